@@ -811,3 +811,7 @@ mod tests {
         );
     }
 }
+
+#[cfg(kani)]
+#[path = "/verif/kani/angle.rs"]
+pub(crate) mod verif_kani;
